@@ -14,6 +14,8 @@ import (
 	"strings"
 	"sync"
 	"time"
+	"unicode"
+	"unicode/utf8"
 
 	am "github.com/hashicorp/go-argmapper"
 	"github.com/hashicorp/go-hclog"
@@ -551,6 +553,21 @@ func (sc *scenario) argsOf(idx []int) []am.Arg {
 	return args
 }
 
+// spelledName: value names are matched case-insensitively, so the options spell them in lower case, in upper case or
+// with a capital first letter (which for a name like "äpfel" is not an ASCII letter), by the value id
+func spelledName(o optSpecC) string {
+	switch o.Vid % 4 {
+	case 1:
+		return strings.ToUpper(o.Name)
+	case 3:
+		r, size := utf8.DecodeRuneInString(o.Name)
+		if size > 0 {
+			return string(unicode.ToUpper(r)) + o.Name[size:]
+		}
+	}
+	return o.Name
+}
+
 func (sc *scenario) mkArg(o optSpecC) am.Arg {
 	// the same option has several spellings in the API (a name or subtype left empty, a Value's own Arg): which one
 	// is used depends on the value id only, so that rebuilding the options gives the same calls
@@ -558,9 +575,9 @@ func (sc *scenario) mkArg(o optSpecC) am.Arg {
 		rv := mkValue(o.Ty, o.Vid, -1)
 		switch {
 		case o.Kind == "named" && o.Vid%5 == 3:
-			return (&am.Value{Name: o.Name, Type: rv.Type(), Value: rv}).Arg()
+			return (&am.Value{Name: spelledName(o), Type: rv.Type(), Value: rv}).Arg()
 		case o.Kind == "namedsub" && o.Vid%5 == 4:
-			return (&am.Value{Name: o.Name, Type: rv.Type(), Subtype: o.Sub, Value: rv}).Arg()
+			return (&am.Value{Name: spelledName(o), Type: rv.Type(), Subtype: o.Sub, Value: rv}).Arg()
 		case o.Kind == "typed" && o.Vid%5 == 2:
 			return am.Named("", rv.Interface())
 		case o.Kind == "typed" && o.Vid%5 == 4:
@@ -573,9 +590,9 @@ func (sc *scenario) mkArg(o optSpecC) am.Arg {
 	}
 	switch o.Kind {
 	case "named":
-		return am.Named(o.Name, mkValue(o.Ty, o.Vid, -1).Interface())
+		return am.Named(spelledName(o), mkValue(o.Ty, o.Vid, -1).Interface())
 	case "namedsub":
-		return am.NamedSubtype(o.Name, mkValue(o.Ty, o.Vid, -1).Interface(), o.Sub)
+		return am.NamedSubtype(spelledName(o), mkValue(o.Ty, o.Vid, -1).Interface(), o.Sub)
 	case "typed":
 		var vs []interface{}
 		for _, e := range o.Pre {
@@ -1092,6 +1109,14 @@ func (sc *scenario) callWith(fid int, omit map[int]bool) []string {
 	default:
 		os := renderOuts(target, res)
 		lines = append(lines, "res ok "+strings.Join(os, ","))
+		if target.Once && target.OForm == "pos" && len(target.Outs) > 0 {
+			// what a caller may do with a result: load it into the function's own output set. The memoised result
+			// of a run-once function must not change by that.
+			func() {
+				defer func() { recover() }()
+				target.fn.Output().FromResult(res)
+			}()
+		}
 	}
 	return lines
 }
